@@ -64,7 +64,16 @@ def run_instance(case, obj=None):
         for bi, (a, b) in enumerate(zip(cuts, cuts[1:])):
             if b > a:
                 lt, ld = case.get('layout') or ('C', 'C')
-                must(case, '%s.update' % metric, obj.update, gen.relayout(traces[a:b], lt), gen.relayout(data[a:b], ld))
+                if case.get('same_buffer') and all(y - x == cuts[1] - cuts[0] for x, y in zip(cuts, cuts[1:])):
+                    # ONE preallocated pair of arrays, refilled in place before every update
+                    if bi == 0:
+                        tbuf, dbuf = np.array(traces[a:b], copy=True), np.array(data[a:b], copy=True)
+                    else:
+                        tbuf[...] = traces[a:b]
+                        dbuf[...] = data[a:b]
+                    must(case, '%s.update (same buffers refilled in place)' % metric, obj.update, tbuf, dbuf)
+                else:
+                    must(case, '%s.update' % metric, obj.update, gen.relayout(traces[a:b], lt), gen.relayout(data[a:b], ld))
                 if bi < len(mid) and mid[bi]:
                     must(case, '%s.compute between batches' % metric, obj.compute)      # must not disturb what follows
         res = must(case, '%s.compute' % metric, obj.compute)
@@ -150,6 +159,8 @@ def check_case(ctx, case):
     if any(case.get('mid_computes') or []) or case.get('compute_twice'):
         labels.append('compute_before_final')
     labels.append('layout:%s/%s' % tuple(case.get('layout') or ('C', 'C')))
+    if case.get('same_buffer'):
+        labels.append('same_buffer_refilled')
     ctx.case(case, unbalanced or empty, labels)
 
 
@@ -216,6 +227,12 @@ def cases(draw, precision, int_dtype, float_dtype, large=False):
     g = np.random.Generator(np.random.PCG64(seed64))
     ncuts = draw(st.integers(0, 2)) if n > 2 else 0
     cuts = sorted(set(draw(st.lists(st.integers(1, n - 1), min_size=ncuts, max_size=ncuts)))) if n > 1 else []
+    same_buffer = False
+    if n >= 4 and not large and draw(st.integers(0, 3)) == 0:
+        m_ = draw(st.sampled_from([d_ for d_ in (2, 3, 4) if n % d_ == 0] or [1]))
+        if m_ > 1:
+            cuts = [n // m_ * i for i in range(1, m_)]
+            same_buffer = True
     first_len = (cuts + [n])[0]
     mode = draw(st.sampled_from(['explicit', 'explicit', 'auto']))
     if mode == 'auto':
@@ -276,7 +293,7 @@ def cases(draw, precision, int_dtype, float_dtype, large=False):
     return {'kind': 'partitioned', 'dist': metric, 'precision': precision, 'regime': regime, 'traces': traces, 'data': data,
             'cuts': cuts, 'partitions': partitions, 'kernels': kernels,
             'mid_computes': [draw(st.booleans()) for _ in range(nb)], 'compute_twice': draw(st.booleans()),
-            'layout': [draw(st.sampled_from(gen.LAYOUTS)), draw(st.sampled_from(gen.LAYOUTS))]}
+            'layout': [draw(st.sampled_from(gen.LAYOUTS)), draw(st.sampled_from(gen.LAYOUTS))], 'same_buffer': same_buffer}
 
 
 def unit_generated(ctx, precision, int_dtype, float_dtype, n, large=False):
